@@ -27,5 +27,6 @@ func main() {
 		fmt.Fprintln(os.Stderr, "vtls: unknown property", r.Prop)
 		os.Exit(vkit.ExitInconclusive)
 	}
+	leftoverPanics(r)
 	r.Finish()
 }
